@@ -45,8 +45,18 @@ DOCS = [
     "".join(f"| h{i} | k |\n|:--|--:|\n| {i} | `c|d` |\n\n" for i in range(6)) + "".join(f"[r{i}]: http://a.example/{i}\n" for i in range(6)) + "\nsee " + " ".join(f"[r{i}]" for i in range(6)) + "\n",
     "".join(f"| g{i} |\n|:-:|\n| {i} |\n\n" for i in range(6)) + "".join(f"[r{i}]: http://b.example/{i} \"t\"\n" for i in range(6)) + "\nsee " + " ".join(f"[r{i}]" for i in range(6)) + " and" + "".join(f" n[^{i}]" for i in range(4)) + "\n\n" + "".join(f"[^{i}]: note {i}\n\n" for i in range(4)),
     "",
+    # documents whose LAST block leaves renderer flags set (heading, definitions, list item, hard break) and documents whose FIRST block is
+    # sensitive to such a flag (a definition followed by a blank line, a loose list, a quote with a loose list): a renderer that outlives a call
+    # must not carry the flags over
+    "intro text\n\n## trailing heading\n",
+    "[first]: http://d.example/4\n\nSee [first] here.\n\n- a\n\n- b\n",
+    "- loose a\n\n- loose b\n\ntext after\n\n[last]: http://e.example/5\n",
+    "text[^z]\n\n[^z]: trailing footnote\n",
+    "> - q one\n>\n> - q two\n\n# heading with break\\\nnext\n",
 ]
-DENSE_PAIRS = [(14, 15), (15, 14), (16, 17), (17, 16), (14, 17), (1, 11)]       # indices into DOCS
+assert len(DOCS) == 24
+EDGE = [2, 4, 19, 20, 21, 22, 23]        # every ordered pair of these (same options) is a history in every tier
+DENSE_PAIRS = [(14, 15), (15, 14), (16, 17), (17, 16), (14, 17), (1, 11), (19, 20), (20, 19), (19, 2), (22, 21)]       # indices into DOCS
 OPTS = [
     dict(width=20), dict(width=40, semantic=False), dict(width=0), dict(width=30, smartquotes=True, ellipses=True),
     dict(width=25, list_spacing="loose"), dict(width=25, list_spacing="tight", cleanups=False), dict(width=30, plaintext=True),
@@ -200,6 +210,8 @@ def run(tier: str) -> int:
     pairs = list(itertools.product(cs, repeat=2))
     if tier == "quick":
         pairs = [p for k, p in enumerate(pairs) if (k + chk.seed) % 3 == 0]
+    have = set(pairs)
+    pairs += [((a, j), (b, j)) for a in EDGE for b in EDGE for j in (0, 3, 4) if (a, j) in solo and (b, j) in solo and ((a, j), (b, j)) not in have]
     triples = [tuple(rng.sample(cs, 3)) for _ in range(200 if tier == "quick" else 3000)]
     hists = [list(p) for p in pairs] + [list(t) for t in triples]
     for seq, res in zip(hists, pmap(_history, hists, chunksize=50)):
